@@ -42,6 +42,36 @@ CLAIMED = {
         "design_ref": "DESIGN.md §3 C15",
         "note": "Trusted: u32 arithmetic does not overflow for realistic files.",
     },
+    "C09": {
+        "technique": "context-sensitive provenance of every span initialiser (SPAN-PROV), inventory of span constructors/overwrites (SPAN-CTOR), escape rule for AST parsed in a private source map (ESCAPE), constant checks of PrintArgs",
+        "text": "Decides where every span placed in the output tree comes from: DUMMY_SP or the span of an input node, through helpers and all call sites; no constructed/shifted span; no foreign-source-map AST escapes un-normalised; print arguments and printed program. It does not decide what swc's code generator emits from those spans.",
+        "design_ref": "DESIGN.md §3 C09",
+        "note": "Trusted: swc codegen emits mappings from node spans only and nothing for DUMMY_SP.",
+    },
+    "C10": {
+        "technique": "provenance rule on the printed text (TEXTEDIT), fallback/chain wiring by argument provenance, constant evaluation of the trailer format against the JS reader's constant, ordering/sibling rules for comment removal",
+        "text": "Decides that the printed text is never edited position-blind, which map is emitted under which conditions, that add_raw/lookup_token are fed the right positions of the right tokens, that the single trailer text equals what the JS reader expects, and that the superseded comment is removed through the comment map by the same predicate that found it.",
+        "design_ref": "DESIGN.md §3 C10",
+        "note": "Trusted: sourcemap crate lookup/encoding; base64.",
+    },
+    "C11": {
+        "technique": "syntax-tree rules over main.js / js/source-map / js/stack-trace parsed with the repository's swc parser: path enumeration of CacheRewriter.rewrite (CACHE-DISCIPLINE), cross-language constant agreement, index-conversion and pass-through shapes",
+        "text": "Decides writer/reader agreement on trailer and status strings, that every outcome of a rewrite updates the cached map of that file and nothing else writes the cache, the +/-1 index conversions, pass-through returns and try/catch wrappers. Does not decide V8 stack formatting.",
+        "design_ref": "DESIGN.md §3 C11",
+        "note": "Trusted: vendored node_source_map.js, V8 CallSite API.",
+    },
+    "C13": {
+        "technique": "panic-obligation inventory from typed HIR cross-checked with MIR assert terminators, discharged by guard rules on structural path conditions (G1-G12) or a reviewed table; loop and call-graph-cycle rules",
+        "text": "Decides that every crate-written unwrap/index/Vec::insert/unchecked access/arithmetic assert is dominated by a guard that makes it safe (or is a reviewed entry), that there is no unbounded loop and that call-graph cycles are the reviewed terminating ones. Panics inside dependencies are outside.",
+        "design_ref": "DESIGN.md §2 PANIC, §3 C13",
+        "note": "Trusted base: swc, sourcemap, base64, serde, wasm-bindgen generated code.",
+    },
+    "C16": {
+        "technique": "inventory and type-level rules: statics vs call graph, rustc Freeze query and deep ownership walk of Rewriter/Config, borrow kinds, who-constructs / who-calls rules, nondeterminism-source inventory",
+        "text": "Decides that no state reachable from a rewrite call outlives it and that the configuration cannot change between calls (type-level argument checked by the compiler facts), that the random prefix is drawn once per rewriter, and that nondeterminism sources are exactly the reviewed ones.",
+        "design_ref": "DESIGN.md §3 C16",
+        "note": "Trusted: global state inside swc (interner), hash seeds of dependencies.",
+    },
 }
 
 PENDING = "check not built yet (implementation in progress; see DESIGN.md)"
